@@ -39,8 +39,10 @@ Definition T (s : st) (t : nat) := getth s t.
 Record Inv (s : st) : Prop := {
   J1 : live s = true -> msgs s <> [] /\ val (hdm s) = total (ths s);
   J2 : forall t, refs (T s t) > 0 -> cle (Wc s) (clk (T s t));
-  J3 : forall u, get (Rc s) u <= get (view (hdm s)) u \/
-                 exists h, refs (T s h) > 0 /\ get (Rc s) u <= get (clk (T s h)) u;
+  J3 : live s = true ->
+       forall u, get (Rc s) u <= get (view (hdm s)) u \/
+                 (exists h, refs (T s h) > 0 /\ get (Rc s) u <= get (clk (T s h)) u) \/
+                 (exists h, mustfree (T s h) = true /\ get (Rc s) u <= get (clk (T s h)) u);
   J4 : forall t, mustfree (T s t) = true ->
          live s = true /\ total (ths s) = 0 /\
          cle (Wc s) (join (clk (T s t)) (pend (T s t))) /\ cle (Rc s) (join (clk (T s t)) (pend (T s t))) /\
@@ -57,6 +59,11 @@ Record Inv (s : st) : Prop := {
 
 Lemma T_dth s t : length (ths s) <= t -> T s t = dth.
 Proof. intros; unfold T, getth; apply nth_overflow; auto. Qed.
+
+Lemma mustfree_no_refs s h t : Inv s -> mustfree (T s h) = true -> refs (T s t) > 0 -> False.
+Proof.
+  intros I Hm Hr. destruct (J4 s I h Hm) as (_ & H0 & _). pose proof (total_ge (ths s) t). unfold T, getth in Hr. lia.
+Qed.
 
 (* safety: an invariant state never steps to an error *)
 Theorem safe s t a : Inv s -> forall e, step s t a <> Err e.
@@ -85,7 +92,8 @@ Proof.
     destruct (live s) eqn:Hl; cbn [negb]; [discriminate|].
     destruct (J6 s I Hl) as [H0 _]. pose proof (total_ge (ths s) t). unfold T, getth in Hr. lia.
   - (* free *)
-    destruct (mustfree (T s t)) eqn:Hm; cbn [negb]; [|discriminate].
+    destruct (mustfree (T s t)) eqn:Hm; cbn [negb andb]; [|discriminate].
+    destruct (cleb (pend (T s t)) (clk (T s t))) eqn:Hf; cbn [negb]; [|discriminate].
     destruct (J4 s I t Hm) as (Hl & _ & HW & HR & _).
     rewrite Hl. cbn [negb].
     assert (HW' : cle (Wc s) (tick (join (clk (T s t)) (pend (T s t))) t))
@@ -101,4 +109,13 @@ Proof.
     + destruct (J6 s I Hl) as [H0 _]. pose proof (total_ge (ths s) t). unfold T, getth in Hr. lia.
   - destruct (_ || _ || _ || _); discriminate.
   - destruct (_ || _ || _ || _); discriminate.
+  - (* fence *) discriminate.
+  - (* read by the freeing thread *)
+    destruct (mustfree (T s t)) eqn:Hm; cbn [negb andb]; [|discriminate].
+    destruct (cleb (pend (T s t)) (clk (T s t))) eqn:Hf; cbn [negb]; [|discriminate].
+    destruct (J4 s I t Hm) as (Hl & _ & HW & _ & _).
+    rewrite Hl. cbn [negb]. apply cleb_spec in Hf.
+    assert (HW' : cle (Wc s) (clk (T s t))).
+    { eapply cle_trans; [exact HW|]. apply cle_join_lub; [apply cle_refl|exact Hf]. }
+    apply cleb_spec in HW'. rewrite HW'. cbn. discriminate.
 Qed.
